@@ -12,10 +12,12 @@ import sys
 from . import gen
 
 VERIF = gen.VERIF
+# scratch copies of the repository live outside /repo and /verif and are removed as soon as the check on them has run
+SCRATCH = os.environ.get("VERIF_SCRATCH", "/tmp/verif-scratch")
 
 
 def scratch(patch, tag):
-    dst = os.path.join(VERIF, ".work", "scratch", tag)
+    dst = os.path.join(SCRATCH, tag)
     shutil.rmtree(dst, ignore_errors=True)
     os.makedirs(os.path.dirname(dst), exist_ok=True)
     shutil.copytree(gen.REPO, dst, ignore=shutil.ignore_patterns("target", ".git"))
@@ -47,6 +49,9 @@ def run(prop, chk):
     p = prop.lower()
     must = sorted(glob.glob(os.path.join(VERIF, "mutants", p, "*.patch")))
     benign = sorted(glob.glob(os.path.join(VERIF, "mutants", p, "benign", "*.patch")))
+    # behaviour-preserving refactorings of the code this property is anchored in, written by independent sub-agents (benign/<PROP>_*/):
+    # the check must stay silent on each (the whole corpus was run against every property during development: tools/benign_matrix.py)
+    benign += sorted(glob.glob(os.path.join(VERIF, "benign", "%s_*" % prop, "patch.diff")))
     seeded = []
     for mf in sorted(glob.glob(os.path.join(VERIF, "seeded", "*", "meta.json"))):
         m = json.load(open(mf))
